@@ -53,6 +53,11 @@ var depLocs = []depLoc{
 	{name: "map", isMap: true, writers: []string{`F.M["a"]`, "F.M[F.KS]"}, readers: []string{`F.M["a"]`, "F.M[F.KS]"}, init: func(w *ref.World) { w.Objs["F"].M = map[string]int64{"a": 4}; w.Objs["F"].KS = "a" }},
 	{name: "mapptr", writers: []string{`F.MP["a"].V`, "F.MP[F.KS].V"}, readers: []string{`F.MP["a"].V`, "F.MP[F.KS].V"}, init: func(w *ref.World) { w.Objs["F"].MP = map[string]*facts.Sub{"a": {V: 4}}; w.Objs["F"].KS = "a" }},
 	{name: "sliceptr", writers: []string{"F.PArr[0].V", "F.PArr[F.K].V"}, readers: []string{"F.PArr[0].V", "F.PArr[F.K].V"}, init: func(w *ref.World) { w.Objs["F"].PArr = []*facts.Sub{{V: 4}, {V: 1}}; w.Objs["F"].K = 0 }},
+	{name: "grid", writers: []string{"F.Grid[0][1]", "F.Grid[F.K][1]", "F.Grid[0][F.K + 1]"}, readers: []string{"F.Grid[0][1]", "F.Grid[F.K][1]", "F.Grid[0][F.K + 1]"}, init: func(w *ref.World) { w.Objs["F"].Grid = [][]int64{{9, 4, 9}, {9, 9, 9}}; w.Objs["F"].K = 0 }},
+	{name: "book", isMap: true, writers: []string{`F.Book["a"]["x"]`, `F.Book[F.KS]["x"]`}, readers: []string{`F.Book["a"]["x"]`, `F.Book[F.KS]["x"]`}, init: func(w *ref.World) {
+		w.Objs["F"].Book = map[string]map[string]int64{"a": {"x": 4}}
+		w.Objs["F"].KS = "a"
+	}},
 	{name: "json", isJSON: true, writers: []string{"J.n"}, readers: []string{"J.n"}, init: func(w *ref.World) {
 		w.JSON["J"] = map[string]interface{}{"n": 4.0, "o": map[string]interface{}{"n": 4.0}}
 	}},
